@@ -16,32 +16,15 @@ Theorem C15_range_exact :
 Proof. exact range_exact. Qed.
 Print Assumptions C15_range_exact.
 
-(* A from-to or from range reaching beyond the resource is answered 416. *)
-Theorem C15_out_of_range_416 :
-  forall r resource, let n := Z.of_nat (length resource) in
-    0 < n -> wholly_inside r n = false ->
-    match r with FromTo a b => 0 <= a <= b | From a => 0 <= a | Suffix _ => False end ->
-    exists a, range_answer (to_rr r) resource = Some a /\ an_status a = 416.
-Proof. exact out_of_range_416. Qed.
-Print Assumptions C15_out_of_range_416.
-
-(* Full statement "every answer is acceptable" outside the named region kf_C15_suffix
-   (suffix length 0 or longer than the resource): *)
-Theorem C15_answer_ok_partial :
-  forall r resource, let n := Z.of_nat (length resource) in
-    0 < n -> kf_C15_suffix r n = false ->
-    match r with FromTo a b => 0 <= a <= b | From a => 0 <= a | Suffix _ => True end ->
+(* The full statement, for every resource (the empty one included) and every well-formed
+   single range - any offsets, suffixes longer than the resource, bytes=-0: the answer is
+   the exact 206, the complete 200, or a 416 for a range not wholly inside. No region is
+   excluded any more: finding F13 is repaired (fix: dd0b389). *)
+Theorem C15_every_answer_acceptable :
+  forall r resource, wellformed r ->
     exists a, range_answer (to_rr r) resource = Some a /\ answer_ok r resource a = true.
-Proof. exact range_answer_ok_partial. Qed.
-Print Assumptions C15_answer_ok_partial.
-
-(* ... and inside that region the full statement is false (finding F13). *)
-Theorem C15_refuted :
-  (range_answer (to_rr (Suffix 20)) (repeat 120%N 10) = None /\
-   fst (set_ranged_headers (Some (to_rr (Suffix 20))) 10 200) = 206) /\
-  (exists a, range_answer (to_rr (Suffix 0)) (repeat 120%N 10) = Some a /\ answer_ok (Suffix 0) (repeat 120%N 10) a = false).
-Proof. split; [exact C15_refuted_suffix | exact C15_refuted_suffix0]. Qed.
-Print Assumptions C15_refuted.
+Proof. exact range_answer_ok. Qed.
+Print Assumptions C15_every_answer_acceptable.
 
 (* tests (not theorems): getRange on the three canonical spellings *)
 Example C15_parse_samples :
